@@ -923,6 +923,10 @@ package ircserver
 //@ pred setsComplete(p *pb.Snapshot_Session, s *Session) = allocated(p.Channels) && allocated(p.InvitedTo) && (forall ch lcChan :: ch in s.Channels ==> (exists j int :: 0 <= j && j < len(p.Channels) && ChanToLower(p.Channels[j]) == ch)) && (forall ch lcChan :: ch in s.invitedTo ==> (exists j int :: 0 <= j && j < len(p.InvitedTo) && ChanToLower(p.InvitedTo[j]) == ch))
 //@ pred snapId(p *pb.Snapshot_Session) = mk("robust.Id", p.Id.Id, p.Id.Reply)
 //@ pred modesOK(p *pb.Snapshot_Session) = allocated(p.Modes) && forall j int :: 0 <= j && j < len(p.Modes) ==> len(p.Modes[j]) > 0 && p.Modes[j][0] < 122
+// sessEntryOK in pieces (proof steps of the writer): sessEntryOK(p, i) <==> sessShapeOK(p) && snapId(p) in i.sessions && sessRepr && modesSound && modesComplete
+//@ pred sessShapeOK(p *pb.Snapshot_Session) = modesOK(p) && p != nil && allocated(p) && p.Id != nil && p.IrcPrefix != nil && allocated(p.Id) && allocated(p.IrcPrefix) && allocated(p.LastActivity) && allocated(p.LastNonPing) && allocated(p.LastSolvedCaptcha)
+//@ pred modesSound(p *pb.Snapshot_Session, s *Session) = forall j int :: 0 <= j && j < len(p.Modes) ==> s.modes[p.Modes[j][0]]
+//@ pred modesComplete(p *pb.Snapshot_Session, s *Session) = forall m int :: 0 <= m && m < 122 && s.modes[m] ==> (exists j int :: 0 <= j && j < len(p.Modes) && p.Modes[j][0] == m)
 //@ pred sessEntryOK(p *pb.Snapshot_Session, i *IRCServer) = modesOK(p) && p != nil && allocated(p) && p.Id != nil && p.IrcPrefix != nil && allocated(p.Id) && allocated(p.IrcPrefix) && allocated(p.LastActivity) && allocated(p.LastNonPing) && allocated(p.LastSolvedCaptcha) && snapId(p) in i.sessions && sessRepr(p, i.sessions[snapId(p)]) && modesRepr(p, i.sessions[snapId(p)])
 
 // The network configuration inside a snapshot.
@@ -936,11 +940,20 @@ package ircserver
 // The channel table: name, topic, key, channel modes, ban list (pattern and regular expression text).
 //@ pred chanRepr(p *pb.Snapshot_Channel, c *channel) = c.name == p.Name && c.topicNick == p.TopicNick && c.topicTime == tsTime(p.TopicTime) && c.topic == p.Topic && c.key == p.Key && (forall m int :: 0 <= m && m < 122 ==> (c.modes[m] <==> (exists j int :: 0 <= j && j < len(p.Modes) && p.Modes[j][0] == m))) && len(c.bans) == len(p.Bans) && (forall k int :: 0 <= k && k < len(p.Bans) ==> c.bans[k].pattern == p.Bans[k].Pattern && c.bans[k].re != nil && c.bans[k].re.String() == p.Bans[k].Regexp)
 // Members of a channel and their status (operator, voice): keyed by the lowered nickname.
+// chanRepr in pieces (proof steps of the writer): chanRepr(p, c) <==> chanReprS && chanModesSound && chanModesComplete && chanReprB
+// for every p whose mode strings are non-empty letters below 122 (chanShapeOK)
+//@ pred chanReprS(p *pb.Snapshot_Channel, c *channel) = c.name == p.Name && c.topicNick == p.TopicNick && c.topicTime == tsTime(p.TopicTime) && c.topic == p.Topic && c.key == p.Key
+//@ pred chanModesSound(p *pb.Snapshot_Channel, c *channel) = forall j int :: 0 <= j && j < len(p.Modes) ==> c.modes[p.Modes[j][0]]
+//@ pred chanModesComplete(p *pb.Snapshot_Channel, c *channel) = forall m int :: 0 <= m && m < 122 && c.modes[m] ==> (exists j int :: 0 <= j && j < len(p.Modes) && p.Modes[j][0] == m)
+//@ pred chanReprB(p *pb.Snapshot_Channel, c *channel) = len(c.bans) == len(p.Bans) && (forall k int :: 0 <= k && k < len(p.Bans) ==> c.bans[k].pattern == p.Bans[k].Pattern && c.bans[k].re != nil && c.bans[k].re.String() == p.Bans[k].Regexp)
 //@ pred memberRepr(m *pb.Snapshot_Channel_Modes, a *[2]bool) = m != nil && a != nil && (forall b int :: 0 <= b && b < 2 ==> (a[b] <==> (exists j int :: 0 <= j && j < len(m.Mode) && m.Mode[j][0] == b)))
 //@ pred chanNicksRepr(p *pb.Snapshot_Channel, c *channel) = c.nicks != nil && (forall n lcNick :: n in c.nicks <==> (exists name string :: name in p.Nicks && NickToLower(name) == n)) && (forall name string :: name in p.Nicks ==> NickToLower(name) in c.nicks && memberRepr(p.Nicks[name], c.nicks[NickToLower(name)]))
 //@ pred chanKey(p *pb.Snapshot_Channel) = ChanToLower(p.Name)
+// what the writer establishes for the member map: the same keys (member keys are lowered nicknames already),
+// status bits per key - no case mapping and no existential, lemma_channicks_writer turns it into chanNicksRepr
+//@ pred chanNicksW(p *pb.Snapshot_Channel, c *channel) = c.nicks != nil && (forall n lcNick :: n in c.nicks <==> n in p.Nicks) && (forall n string :: n in p.Nicks ==> memberRepr(p.Nicks[n], c.nicks[n]))
 //@ pred chanShapeOK(p *pb.Snapshot_Channel) = p != nil && allocated(p) && allocated(p.TopicTime) && allocated(p.Modes) && allocated(p.Bans) && allocated(p.Nicks) && (forall j int :: 0 <= j && j < len(p.Modes) ==> len(p.Modes[j]) > 0 && p.Modes[j][0] < 122) && (forall j int :: 0 <= j && j < len(p.Bans) ==> p.Bans[j] != nil && allocated(p.Bans[j]) && reok(p.Bans[j].Regexp)) && (forall name string :: name in p.Nicks ==> p.Nicks[name] != nil && allocated(p.Nicks[name]) && allocated(p.Nicks[name].Mode) && (forall j int :: 0 <= j && j < len(p.Nicks[name].Mode) ==> len(p.Nicks[name].Mode[j]) > 0 && p.Nicks[name].Mode[j][0] < 2)) && (forall x string, y string :: x in p.Nicks && y in p.Nicks && x != y ==> NickToLower(x) != NickToLower(y))
-//@ pred chanEntryOK(p *pb.Snapshot_Channel, i *IRCServer) = chanShapeOK(p) && chanKey(p) in i.channels && chanRepr(p, i.channels[chanKey(p)]) && chanNicksRepr(p, i.channels[chanKey(p)])
+//@ pred chanEntryOK(p *pb.Snapshot_Channel, i *IRCServer) = chanShapeOK(p) && chanKey(p) in i.channels && chanRepr(p, i.channels[chanKey(p)]) && chanNicksW(p, i.channels[chanKey(p)])
 //@ pred wfSnapChannels(S *pb.Snapshot) = (forall k int :: 0 <= k && k < len(S.Channels) ==> S.Channels[k] != nil && allocated(S.Channels[k]) && (forall j int :: 0 <= j && j < len(S.Channels[k].Modes) ==> len(S.Channels[k].Modes[j]) > 0 && S.Channels[k].Modes[j][0] < 122) && (forall j int :: 0 <= j && j < len(S.Channels[k].Bans) ==> S.Channels[k].Bans[j] != nil && reok(S.Channels[k].Bans[j].Regexp)) && (forall name string :: name in S.Channels[k].Nicks ==> S.Channels[k].Nicks[name] != nil && (forall j int :: 0 <= j && j < len(S.Channels[k].Nicks[name].Mode) ==> len(S.Channels[k].Nicks[name].Mode[j]) > 0 && S.Channels[k].Nicks[name].Mode[j][0] < 2)) && (forall x string, y string :: x in S.Channels[k].Nicks && y in S.Channels[k].Nicks && x != y ==> NickToLower(x) != NickToLower(y))) && (forall a int, b int {S.Channels[a], S.Channels[b]} :: 0 <= a && a < b && b < len(S.Channels) ==> chanKey(S.Channels[a]) != chanKey(S.Channels[b]))
 // What Marshal guarantees about the shape of a snapshot (asserted there, assumed after decoding).
 //@ pred wfSnapSessions(S *pb.Snapshot) = (forall k int :: 0 <= k && k < len(S.Sessions) ==> S.Sessions[k] != nil && allocated(S.Sessions[k]) && S.Sessions[k].Id != nil && S.Sessions[k].IrcPrefix != nil && (forall j int :: 0 <= j && j < len(S.Sessions[k].Modes) ==> len(S.Sessions[k].Modes[j]) > 0 && S.Sessions[k].Modes[j][0] < 122)) && (forall a int, b int {S.Sessions[a], S.Sessions[b]} :: 0 <= a && a < b && b < len(S.Sessions) ==> snapId(S.Sessions[a]) != snapId(S.Sessions[b]))
@@ -970,127 +983,242 @@ package ircserver
 //@   requires legacy-created: forall x robust.Id :: x in i.sessions ==> i.sessions[x].Created > 0 && !i.sessions[x].LastNonPing.IsZero()
 // user modes are letters: nothing below 'A' is ever set (cmdMode only sets parsed mode letters)
 //@   requires modes-letters: forall x robust.Id, m int :: x in i.sessions && 0 <= m && m < 65 ==> !i.sessions[x].modes[m]
-//@   assert@call append#3 : setw-built: callarg1[0] != nil && callarg1[0].Id != nil && snapId(callarg1[0]) == id && session == i.sessions[id] && setsSound(callarg1[0], session)
-//@   assert@call append#3 : setwc-built: callarg1[0] != nil && callarg1[0].Id != nil && snapId(callarg1[0]) == id && session == i.sessions[id] && setsComplete(callarg1[0], session)
-//@   assert@call append#3 : sess-built: callarg1[0] != nil && callarg1[0].Id != nil && callarg1[0].IrcPrefix != nil && snapId(callarg1[0]) == id && session == i.sessions[id] && sessRepr(callarg1[0], session) && modesOK(callarg1[0]) && modesRepr(callarg1[0], session)
-//@   assert@call append#3 : sess-kept-shape: forall k int :: 0 <= k && k < len(sessions) ==> sessions[k] != nil && allocated(sessions[k]) && sessions[k].Id != nil && sessions[k].IrcPrefix != nil && allocated(sessions[k].Id) && allocated(sessions[k].IrcPrefix) && allocated(sessions[k].LastActivity) && allocated(sessions[k].LastNonPing) && allocated(sessions[k].LastSolvedCaptcha) && modesOK(sessions[k]) && snapId(sessions[k]) in i.sessions && snapId(sessions[k]) != id
-//@   assert@call append#3 : sess-kept-repr: forall k int :: 0 <= k && k < len(sessions) ==> sessRepr(sessions[k], i.sessions[snapId(sessions[k])])
-//@   assert@call append#3 : sess-kept-modes: forall k int :: 0 <= k && k < len(sessions) ==> modesRepr(sessions[k], i.sessions[snapId(sessions[k])])
-//@   assert@call append#3 : sess-kept: forall k int :: 0 <= k && k < len(sessions) ==> sessEntryOK(sessions[k], i) && snapId(sessions[k]) != id
+// proof steps for the channel list: what was built so far is untouched by the work on the current channel
+//@   assert@call append#6 : chanw-k-keys: forall k int :: 0 <= k && k < len(channels) ==> channels[k] != nil && allocated(channels[k]) && chanKey(channels[k]) in i.channels && seen(chanKey(channels[k]), "range i.channels") && chanKey(channels[k]) != ChanToLower(channel.name)
+// ... piece by piece (shape, scalars, mode letters in both directions, bans, members): each piece is carried by its own
+// unit of the C03 plan, with the other pieces it needs assumed there (they are proved by their own units)
+//@   assert@call append#6 : chanw-k-shape: forall k int :: 0 <= k && k < len(channels) ==> chanShapeOK(channels[k])
+//@   assert@call append#6 : chanw-k-scalars: forall k int :: 0 <= k && k < len(channels) ==> chanReprS(channels[k], i.channels[chanKey(channels[k])])
+//@   assert@call append#6 : chanw-k-msound: forall k int :: 0 <= k && k < len(channels) ==> chanModesSound(channels[k], i.channels[chanKey(channels[k])])
+//@   assert@call append#6 : chanw-k-mcomplete: forall k int :: 0 <= k && k < len(channels) ==> chanModesComplete(channels[k], i.channels[chanKey(channels[k])])
+//@   assert@call append#6 : chanw-k-bans: forall k int :: 0 <= k && k < len(channels) ==> chanReprB(channels[k], i.channels[chanKey(channels[k])])
+//@   assert@call append#6 : chanw-k-members: forall k int :: 0 <= k && k < len(channels) ==> chanNicksW(channels[k], i.channels[chanKey(channels[k])])
+// the entry built for the current channel, in the same pieces
+//@   assert@call append#6 : chanw-b-key: callarg1[0] != nil && chanKey(callarg1[0]) == ChanToLower(channel.name)
+//@   assert@call append#6 : chanw-b-shape: chanShapeOK(callarg1[0])
+//@   assert@call append#6 : chanw-b-scalars: chanReprS(callarg1[0], channel)
+//@   assert@call append#6 : chanw-b-msound: chanModesSound(callarg1[0], channel)
+//@   assert@call append#6 : chanw-b-mcomplete: chanModesComplete(callarg1[0], channel)
+//@   assert@call append#6 : chanw-b-bans: chanReprB(callarg1[0], channel)
+//@   assert@call append#6 : chanw-b-members: chanNicksW(callarg1[0], channel)
+// proof steps for the session list, piece by piece (shape, scalar fields, mode letters in both directions, the two
+// channel sets in both directions): k- what was built so far is untouched by building the current entry, b- the entry
+// built for the current session; each piece is carried by its own unit of the C03 plan
+//@   assert@call append#3 : sess-k-shape: forall k int :: 0 <= k && k < len(sessions) ==> sessShapeOK(sessions[k])
+//@   assert@call append#3 : sess-k-keys: forall k int :: 0 <= k && k < len(sessions) ==> snapId(sessions[k]) in i.sessions && snapId(sessions[k]) != id && seen(snapId(sessions[k]), "range i.sessions")
+//@   assert@call append#3 : sess-k-repr: forall k int :: 0 <= k && k < len(sessions) ==> sessRepr(sessions[k], i.sessions[snapId(sessions[k])])
+//@   assert@call append#3 : sess-k-msound: forall k int :: 0 <= k && k < len(sessions) ==> modesSound(sessions[k], i.sessions[snapId(sessions[k])])
+//@   assert@call append#3 : sess-k-mcomplete: forall k int :: 0 <= k && k < len(sessions) ==> modesComplete(sessions[k], i.sessions[snapId(sessions[k])])
+//@   assert@call append#3 : setw-k: forall k int :: 0 <= k && k < len(sessions) ==> setsSound(sessions[k], i.sessions[snapId(sessions[k])])
+//@   assert@call append#3 : setwc-k: forall k int :: 0 <= k && k < len(sessions) ==> setsComplete(sessions[k], i.sessions[snapId(sessions[k])])
+//@   assert@call append#3 : sess-b-key: callarg1[0] != nil && callarg1[0].Id != nil && callarg1[0].IrcPrefix != nil && snapId(callarg1[0]) == id && session == i.sessions[id]
+//@   assert@call append#3 : sess-b-shape: sessShapeOK(callarg1[0])
+//@   assert@call append#3 : sess-b-repr: sessRepr(callarg1[0], session)
+//@   assert@call append#3 : sess-b-msound: modesSound(callarg1[0], session)
+//@   assert@call append#3 : sess-b-mcomplete: modesComplete(callarg1[0], session)
+//@   assert@call append#3 : setw-b: setsSound(callarg1[0], session)
+//@   assert@call append#3 : setwc-b: setsComplete(callarg1[0], session)
+// the witness for the current session in the completeness invariant: the last element of the extended list
+//@   assert@after append#3 : sess-appended: len(callres) >= 1 && snapId(callres[len(callres) - 1]) == id
 //@   loop range i.sessions
-//@     invariant setw: (forall k int :: 0 <= k && k < len(sessions) ==> sessions[k] != nil && allocated(sessions[k]) && sessions[k].Id != nil && allocated(sessions[k].Id) && setsSound(sessions[k], i.sessions[snapId(sessions[k])]))
-//@     invariant setwc: (forall k int :: 0 <= k && k < len(sessions) ==> sessions[k] != nil && allocated(sessions[k]) && sessions[k].Id != nil && allocated(sessions[k].Id) && setsComplete(sessions[k], i.sessions[snapId(sessions[k])]))
-//@     invariant sess-l0: forall k int :: 0 <= k && k < len(sessions) ==> sessEntryOK(sessions[k], i) && seen(snapId(sessions[k]))
-//@     invariant sess-l1: forall x robust.Id :: seen(x) ==> (exists k int :: 0 <= k && k < len(sessions) && snapId(sessions[k]) == x)
-//@     invariant sess-l2: forall a int, b int {sessions[a], sessions[b]} :: 0 <= a && a < b && b < len(sessions) ==> snapId(sessions[a]) != snapId(sessions[b])
+//@     invariant sess-shape: forall k int :: 0 <= k && k < len(sessions) ==> sessShapeOK(sessions[k])
+//@     invariant sess-keys: forall k int :: 0 <= k && k < len(sessions) ==> snapId(sessions[k]) in i.sessions && seen(snapId(sessions[k]))
+//@     invariant sess-repr: forall k int :: 0 <= k && k < len(sessions) ==> sessRepr(sessions[k], i.sessions[snapId(sessions[k])])
+//@     invariant sess-msound: forall k int :: 0 <= k && k < len(sessions) ==> modesSound(sessions[k], i.sessions[snapId(sessions[k])])
+//@     invariant sess-mcomplete: forall k int :: 0 <= k && k < len(sessions) ==> modesComplete(sessions[k], i.sessions[snapId(sessions[k])])
+//@     invariant setw: forall k int :: 0 <= k && k < len(sessions) ==> setsSound(sessions[k], i.sessions[snapId(sessions[k])])
+//@     invariant setwc: forall k int :: 0 <= k && k < len(sessions) ==> setsComplete(sessions[k], i.sessions[snapId(sessions[k])])
+//@     invariant sess-complete: forall x robust.Id :: seen(x) ==> (exists k int :: 0 <= k && k < len(sessions) && snapId(sessions[k]) == x)
+//@     invariant sess-distinct: forall a int, b int {sessions[a], sessions[b]} :: 0 <= a && a < b && b < len(sessions) ==> snapId(sessions[a]) != snapId(sessions[b])
 //@   loop range session.Channels
-//@     invariant setw: (forall k int :: 0 <= k && k < len(sessions) ==> sessions[k] != nil && allocated(sessions[k]) && sessions[k].Id != nil && allocated(sessions[k].Id) && setsSound(sessions[k], i.sessions[snapId(sessions[k])])) && allocated(channels) && (forall j int :: 0 <= j && j < len(channels) ==> seen(channels[j])) && (forall ch lcChan :: seen(ch) ==> ch in session.Channels)
-//@     invariant setwc: (forall k int :: 0 <= k && k < len(sessions) ==> sessions[k] != nil && allocated(sessions[k]) && sessions[k].Id != nil && allocated(sessions[k].Id) && setsComplete(sessions[k], i.sessions[snapId(sessions[k])])) && allocated(channels) && (forall ch lcChan :: seen(ch) ==> (exists j int :: 0 <= j && j < len(channels) && channels[j] == ch))
-//@     invariant sess-l3: id in i.sessions && session == i.sessions[id] && session != nil
-//@     invariant sess-l4: forall k int :: 0 <= k && k < len(sessions) ==> sessEntryOK(sessions[k], i) && snapId(sessions[k]) != id && seen(snapId(sessions[k]), "range i.sessions")
-//@     invariant sess-l5: forall x robust.Id :: seen(x, "range i.sessions") && x != id ==> (exists k int :: 0 <= k && k < len(sessions) && snapId(sessions[k]) == x)
-//@     invariant sess-l6: forall a int, b int {sessions[a], sessions[b]} :: 0 <= a && a < b && b < len(sessions) ==> snapId(sessions[a]) != snapId(sessions[b])
+//@     invariant sess-cur: id in i.sessions && session == i.sessions[id] && session != nil
+//@     invariant sess-shape: forall k int :: 0 <= k && k < len(sessions) ==> sessShapeOK(sessions[k])
+//@     invariant sess-keys: forall k int :: 0 <= k && k < len(sessions) ==> snapId(sessions[k]) in i.sessions && snapId(sessions[k]) != id && seen(snapId(sessions[k]), "range i.sessions")
+//@     invariant sess-repr: forall k int :: 0 <= k && k < len(sessions) ==> sessRepr(sessions[k], i.sessions[snapId(sessions[k])])
+//@     invariant sess-msound: forall k int :: 0 <= k && k < len(sessions) ==> modesSound(sessions[k], i.sessions[snapId(sessions[k])])
+//@     invariant sess-mcomplete: forall k int :: 0 <= k && k < len(sessions) ==> modesComplete(sessions[k], i.sessions[snapId(sessions[k])])
+//@     invariant setw: forall k int :: 0 <= k && k < len(sessions) ==> setsSound(sessions[k], i.sessions[snapId(sessions[k])])
+//@     invariant setwc: forall k int :: 0 <= k && k < len(sessions) ==> setsComplete(sessions[k], i.sessions[snapId(sessions[k])])
+//@     invariant sess-complete: forall x robust.Id :: seen(x, "range i.sessions") && x != id ==> (exists k int :: 0 <= k && k < len(sessions) && snapId(sessions[k]) == x)
+//@     invariant sess-distinct: forall a int, b int {sessions[a], sessions[b]} :: 0 <= a && a < b && b < len(sessions) ==> snapId(sessions[a]) != snapId(sessions[b])
+//@     invariant setw-local: allocated(channels) && (forall j int :: 0 <= j && j < len(channels) ==> seen(channels[j])) && (forall ch lcChan :: seen(ch) ==> ch in session.Channels)
+//@     invariant setwc-local: allocated(channels) && (forall ch lcChan :: seen(ch) ==> (exists j int :: 0 <= j && j < len(channels) && channels[j] == ch))
 //@   loop range session.invitedTo
-//@     invariant setw: (forall k int :: 0 <= k && k < len(sessions) ==> sessions[k] != nil && allocated(sessions[k]) && sessions[k].Id != nil && allocated(sessions[k].Id) && setsSound(sessions[k], i.sessions[snapId(sessions[k])])) && allocated(channels) && (forall j int :: 0 <= j && j < len(channels) ==> channels[j] in session.Channels) && allocated(invitedTo) && !samearray(invitedTo, channels) && (forall j int :: 0 <= j && j < len(invitedTo) ==> seen(invitedTo[j])) && (forall ch lcChan :: seen(ch) ==> ch in session.invitedTo)
-//@     invariant setwc: (forall k int :: 0 <= k && k < len(sessions) ==> sessions[k] != nil && allocated(sessions[k]) && sessions[k].Id != nil && allocated(sessions[k].Id) && setsComplete(sessions[k], i.sessions[snapId(sessions[k])])) && allocated(channels) && (forall ch lcChan :: ch in session.Channels ==> (exists j int :: 0 <= j && j < len(channels) && channels[j] == ch)) && allocated(invitedTo) && !samearray(invitedTo, channels) && (forall ch lcChan :: seen(ch) ==> (exists j int :: 0 <= j && j < len(invitedTo) && invitedTo[j] == ch))
-//@     invariant sess-l7: id in i.sessions && session == i.sessions[id] && session != nil
-//@     invariant sess-l8: forall k int :: 0 <= k && k < len(sessions) ==> sessEntryOK(sessions[k], i) && snapId(sessions[k]) != id && seen(snapId(sessions[k]), "range i.sessions")
-//@     invariant sess-l9: forall x robust.Id :: seen(x, "range i.sessions") && x != id ==> (exists k int :: 0 <= k && k < len(sessions) && snapId(sessions[k]) == x)
-//@     invariant sess-l10: forall a int, b int {sessions[a], sessions[b]} :: 0 <= a && a < b && b < len(sessions) ==> snapId(sessions[a]) != snapId(sessions[b])
+//@     invariant sess-cur: id in i.sessions && session == i.sessions[id] && session != nil
+//@     invariant sess-shape: forall k int :: 0 <= k && k < len(sessions) ==> sessShapeOK(sessions[k])
+//@     invariant sess-keys: forall k int :: 0 <= k && k < len(sessions) ==> snapId(sessions[k]) in i.sessions && snapId(sessions[k]) != id && seen(snapId(sessions[k]), "range i.sessions")
+//@     invariant sess-repr: forall k int :: 0 <= k && k < len(sessions) ==> sessRepr(sessions[k], i.sessions[snapId(sessions[k])])
+//@     invariant sess-msound: forall k int :: 0 <= k && k < len(sessions) ==> modesSound(sessions[k], i.sessions[snapId(sessions[k])])
+//@     invariant sess-mcomplete: forall k int :: 0 <= k && k < len(sessions) ==> modesComplete(sessions[k], i.sessions[snapId(sessions[k])])
+//@     invariant setw: forall k int :: 0 <= k && k < len(sessions) ==> setsSound(sessions[k], i.sessions[snapId(sessions[k])])
+//@     invariant setwc: forall k int :: 0 <= k && k < len(sessions) ==> setsComplete(sessions[k], i.sessions[snapId(sessions[k])])
+//@     invariant sess-complete: forall x robust.Id :: seen(x, "range i.sessions") && x != id ==> (exists k int :: 0 <= k && k < len(sessions) && snapId(sessions[k]) == x)
+//@     invariant sess-distinct: forall a int, b int {sessions[a], sessions[b]} :: 0 <= a && a < b && b < len(sessions) ==> snapId(sessions[a]) != snapId(sessions[b])
+//@     invariant setw-local: allocated(channels) && (forall j int :: 0 <= j && j < len(channels) ==> channels[j] in session.Channels) && allocated(invitedTo) && !samearray(invitedTo, channels) && (forall j int :: 0 <= j && j < len(invitedTo) ==> seen(invitedTo[j])) && (forall ch lcChan :: seen(ch) ==> ch in session.invitedTo)
+//@     invariant setwc-local: allocated(channels) && (forall ch lcChan :: ch in session.Channels ==> (exists j int :: 0 <= j && j < len(channels) && channels[j] == ch)) && allocated(invitedTo) && !samearray(invitedTo, channels) && (forall ch lcChan :: seen(ch) ==> (exists j int :: 0 <= j && j < len(invitedTo) && invitedTo[j] == ch))
 //@   loop for mode < 'z'
-//@     invariant setw: (forall k int :: 0 <= k && k < len(sessions) ==> sessions[k] != nil && allocated(sessions[k]) && sessions[k].Id != nil && allocated(sessions[k].Id) && setsSound(sessions[k], i.sessions[snapId(sessions[k])])) && allocated(channels) && (forall j int :: 0 <= j && j < len(channels) ==> channels[j] in session.Channels) && allocated(invitedTo) && !samearray(invitedTo, channels) && (forall j int :: 0 <= j && j < len(invitedTo) ==> invitedTo[j] in session.invitedTo) && allocated(modes) && !samearray(modes, channels) && !samearray(modes, invitedTo)
-//@     invariant setwc: (forall k int :: 0 <= k && k < len(sessions) ==> sessions[k] != nil && allocated(sessions[k]) && sessions[k].Id != nil && allocated(sessions[k].Id) && setsComplete(sessions[k], i.sessions[snapId(sessions[k])])) && allocated(channels) && (forall ch lcChan :: ch in session.Channels ==> (exists j int :: 0 <= j && j < len(channels) && channels[j] == ch)) && allocated(invitedTo) && !samearray(invitedTo, channels) && (forall ch lcChan :: ch in session.invitedTo ==> (exists j int :: 0 <= j && j < len(invitedTo) && invitedTo[j] == ch)) && allocated(modes) && !samearray(modes, channels) && !samearray(modes, invitedTo)
-//@     invariant sess-l11: forall j int :: 0 <= j && j < len(modes) ==> len(modes[j]) > 0 && modes[j][0] < 122
-//@     invariant sess-l12: 65 <= mode && mode <= 122 && (forall j int :: 0 <= j && j < len(modes) ==> 65 <= modes[j][0] && modes[j][0] < mode && session.modes[modes[j][0]])
-//@     invariant sess-l12b: forall m int :: 65 <= m && m < mode && session.modes[m] ==> (exists j int :: 0 <= j && j < len(modes) && modes[j][0] == m)
-//@     invariant sess-l13: id in i.sessions && session == i.sessions[id] && session != nil
-//@     invariant sess-l14: forall k int :: 0 <= k && k < len(sessions) ==> sessEntryOK(sessions[k], i) && snapId(sessions[k]) != id && seen(snapId(sessions[k]), "range i.sessions")
-//@     invariant sess-l15: forall x robust.Id :: seen(x, "range i.sessions") && x != id ==> (exists k int :: 0 <= k && k < len(sessions) && snapId(sessions[k]) == x)
-//@     invariant sess-l16: forall a int, b int {sessions[a], sessions[b]} :: 0 <= a && a < b && b < len(sessions) ==> snapId(sessions[a]) != snapId(sessions[b])
+//@     invariant sess-cur: id in i.sessions && session == i.sessions[id] && session != nil
+//@     invariant sess-shape: forall k int :: 0 <= k && k < len(sessions) ==> sessShapeOK(sessions[k])
+//@     invariant sess-keys: forall k int :: 0 <= k && k < len(sessions) ==> snapId(sessions[k]) in i.sessions && snapId(sessions[k]) != id && seen(snapId(sessions[k]), "range i.sessions")
+//@     invariant sess-repr: forall k int :: 0 <= k && k < len(sessions) ==> sessRepr(sessions[k], i.sessions[snapId(sessions[k])])
+//@     invariant sess-msound: forall k int :: 0 <= k && k < len(sessions) ==> modesSound(sessions[k], i.sessions[snapId(sessions[k])])
+//@     invariant sess-mcomplete: forall k int :: 0 <= k && k < len(sessions) ==> modesComplete(sessions[k], i.sessions[snapId(sessions[k])])
+//@     invariant setw: forall k int :: 0 <= k && k < len(sessions) ==> setsSound(sessions[k], i.sessions[snapId(sessions[k])])
+//@     invariant setwc: forall k int :: 0 <= k && k < len(sessions) ==> setsComplete(sessions[k], i.sessions[snapId(sessions[k])])
+//@     invariant sess-complete: forall x robust.Id :: seen(x, "range i.sessions") && x != id ==> (exists k int :: 0 <= k && k < len(sessions) && snapId(sessions[k]) == x)
+//@     invariant sess-distinct: forall a int, b int {sessions[a], sessions[b]} :: 0 <= a && a < b && b < len(sessions) ==> snapId(sessions[a]) != snapId(sessions[b])
+//@     invariant setw-local: allocated(channels) && (forall j int :: 0 <= j && j < len(channels) ==> channels[j] in session.Channels) && allocated(invitedTo) && !samearray(invitedTo, channels) && (forall j int :: 0 <= j && j < len(invitedTo) ==> invitedTo[j] in session.invitedTo) && allocated(modes) && !samearray(modes, channels) && !samearray(modes, invitedTo)
+//@     invariant setwc-local: allocated(channels) && (forall ch lcChan :: ch in session.Channels ==> (exists j int :: 0 <= j && j < len(channels) && channels[j] == ch)) && allocated(invitedTo) && !samearray(invitedTo, channels) && (forall ch lcChan :: ch in session.invitedTo ==> (exists j int :: 0 <= j && j < len(invitedTo) && invitedTo[j] == ch)) && allocated(modes) && !samearray(modes, channels) && !samearray(modes, invitedTo)
+//@     invariant sess-modes: 65 <= mode && mode <= 122 && (forall j int :: 0 <= j && j < len(modes) ==> len(modes[j]) > 0 && 65 <= modes[j][0] && modes[j][0] < mode && session.modes[modes[j][0]])
+//@     invariant sess-modes2: forall m int :: 65 <= m && m < mode && session.modes[m] ==> (exists j int :: 0 <= j && j < len(modes) && modes[j][0] == m)
 // the loops after the session loop leave the session list alone
 //@   loop range i.channels
-//@     invariant setw: (forall k int :: 0 <= k && k < len(sessions) ==> sessions[k] != nil && allocated(sessions[k]) && sessions[k].Id != nil && allocated(sessions[k].Id) && setsSound(sessions[k], i.sessions[snapId(sessions[k])]))
-//@     invariant setwc: (forall k int :: 0 <= k && k < len(sessions) ==> sessions[k] != nil && allocated(sessions[k]) && sessions[k].Id != nil && allocated(sessions[k].Id) && setsComplete(sessions[k], i.sessions[snapId(sessions[k])]))
+//@     invariant sess-shape: forall k int :: 0 <= k && k < len(sessions) ==> sessShapeOK(sessions[k])
+//@     invariant sess-keys: forall k int :: 0 <= k && k < len(sessions) ==> snapId(sessions[k]) in i.sessions
+//@     invariant sess-repr: forall k int :: 0 <= k && k < len(sessions) ==> sessRepr(sessions[k], i.sessions[snapId(sessions[k])])
+//@     invariant sess-msound: forall k int :: 0 <= k && k < len(sessions) ==> modesSound(sessions[k], i.sessions[snapId(sessions[k])])
+//@     invariant sess-mcomplete: forall k int :: 0 <= k && k < len(sessions) ==> modesComplete(sessions[k], i.sessions[snapId(sessions[k])])
+//@     invariant setw: forall k int :: 0 <= k && k < len(sessions) ==> setsSound(sessions[k], i.sessions[snapId(sessions[k])])
+//@     invariant setwc: forall k int :: 0 <= k && k < len(sessions) ==> setsComplete(sessions[k], i.sessions[snapId(sessions[k])])
+//@     invariant sess-complete: forall x robust.Id :: x in i.sessions ==> (exists k int :: 0 <= k && k < len(sessions) && snapId(sessions[k]) == x)
+//@     invariant sess-distinct: forall a int, b int {sessions[a], sessions[b]} :: 0 <= a && a < b && b < len(sessions) ==> snapId(sessions[a]) != snapId(sessions[b])
 //@     invariant chanwc: (forall k int :: 0 <= k && k < len(channels) ==> channels[k] != nil && allocated(channels[k])) && forall ch lcChan :: seen(ch) ==> (exists k int :: 0 <= k && k < len(channels) && chanKey(channels[k]) == ch)
-//@     invariant chanw: forall k int :: 0 <= k && k < len(channels) ==> chanEntryOK(channels[k], i) && seen(chanKey(channels[k]))
+//@     invariant chanw-o-keys: forall k int :: 0 <= k && k < len(channels) ==> channels[k] != nil && allocated(channels[k]) && chanKey(channels[k]) in i.channels && seen(chanKey(channels[k]))
+//@     invariant chanw-o-shape: forall k int :: 0 <= k && k < len(channels) ==> chanShapeOK(channels[k])
+//@     invariant chanw-o-scalars: forall k int :: 0 <= k && k < len(channels) ==> chanReprS(channels[k], i.channels[chanKey(channels[k])])
+//@     invariant chanw-o-msound: forall k int :: 0 <= k && k < len(channels) ==> chanModesSound(channels[k], i.channels[chanKey(channels[k])])
+//@     invariant chanw-o-mcomplete: forall k int :: 0 <= k && k < len(channels) ==> chanModesComplete(channels[k], i.channels[chanKey(channels[k])])
+//@     invariant chanw-o-bans: forall k int :: 0 <= k && k < len(channels) ==> chanReprB(channels[k], i.channels[chanKey(channels[k])])
+//@     invariant chanw-o-members: forall k int :: 0 <= k && k < len(channels) ==> chanNicksW(channels[k], i.channels[chanKey(channels[k])])
 //@     invariant chanw-distinct: forall a int, b int {channels[a], channels[b]} :: 0 <= a && a < b && b < len(channels) ==> chanKey(channels[a]) != chanKey(channels[b])
-//@     invariant sess-l17: forall k int :: 0 <= k && k < len(sessions) ==> sessEntryOK(sessions[k], i)
-//@     invariant sess-l18: forall x robust.Id :: x in i.sessions ==> (exists k int :: 0 <= k && k < len(sessions) && snapId(sessions[k]) == x)
-//@     invariant sess-l19: forall a int, b int {sessions[a], sessions[b]} :: 0 <= a && a < b && b < len(sessions) ==> snapId(sessions[a]) != snapId(sessions[b])
 //@   loop range channel.nicks
-//@     invariant setw: (forall k int :: 0 <= k && k < len(sessions) ==> sessions[k] != nil && allocated(sessions[k]) && sessions[k].Id != nil && allocated(sessions[k].Id) && setsSound(sessions[k], i.sessions[snapId(sessions[k])]))
-//@     invariant setwc: (forall k int :: 0 <= k && k < len(sessions) ==> sessions[k] != nil && allocated(sessions[k]) && sessions[k].Id != nil && allocated(sessions[k].Id) && setsComplete(sessions[k], i.sessions[snapId(sessions[k])]))
+//@     invariant sess-shape: forall k int :: 0 <= k && k < len(sessions) ==> sessShapeOK(sessions[k])
+//@     invariant sess-keys: forall k int :: 0 <= k && k < len(sessions) ==> snapId(sessions[k]) in i.sessions
+//@     invariant sess-repr: forall k int :: 0 <= k && k < len(sessions) ==> sessRepr(sessions[k], i.sessions[snapId(sessions[k])])
+//@     invariant sess-msound: forall k int :: 0 <= k && k < len(sessions) ==> modesSound(sessions[k], i.sessions[snapId(sessions[k])])
+//@     invariant sess-mcomplete: forall k int :: 0 <= k && k < len(sessions) ==> modesComplete(sessions[k], i.sessions[snapId(sessions[k])])
+//@     invariant setw: forall k int :: 0 <= k && k < len(sessions) ==> setsSound(sessions[k], i.sessions[snapId(sessions[k])])
+//@     invariant setwc: forall k int :: 0 <= k && k < len(sessions) ==> setsComplete(sessions[k], i.sessions[snapId(sessions[k])])
+//@     invariant sess-complete: forall x robust.Id :: x in i.sessions ==> (exists k int :: 0 <= k && k < len(sessions) && snapId(sessions[k]) == x)
+//@     invariant sess-distinct: forall a int, b int {sessions[a], sessions[b]} :: 0 <= a && a < b && b < len(sessions) ==> snapId(sessions[a]) != snapId(sessions[b])
 //@     invariant chanwc: channel != nil && seen(ChanToLower(channel.name), "range i.channels") && (forall k int :: 0 <= k && k < len(channels) ==> channels[k] != nil && allocated(channels[k])) && forall ch lcChan :: seen(ch, "range i.channels") && ch != ChanToLower(channel.name) ==> (exists k int :: 0 <= k && k < len(channels) && chanKey(channels[k]) == ch)
-//@     invariant chanw: channel != nil && ChanToLower(channel.name) in i.channels && i.channels[ChanToLower(channel.name)] == channel && seen(ChanToLower(channel.name), "range i.channels") && (forall k int :: 0 <= k && k < len(channels) ==> chanEntryOK(channels[k], i) && seen(chanKey(channels[k]), "range i.channels") && chanKey(channels[k]) != ChanToLower(channel.name))
-//@     invariant chanw-distinct: forall a int, b int {channels[a], channels[b]} :: 0 <= a && a < b && b < len(channels) ==> chanKey(channels[a]) != chanKey(channels[b])
-//@     invariant chanw-nicks: nicks != nil && allocated(nicks) && (forall n lcNick :: seen(n) <==> n in nicks) && (forall n string :: n in nicks ==> n in channel.nicks && nicks[n] != nil && allocated(nicks[n]) && allocated(nicks[n].Mode) && memberRepr(nicks[n], channel.nicks[n]) && (forall j int :: 0 <= j && j < len(nicks[n].Mode) ==> len(nicks[n].Mode[j]) > 0 && nicks[n].Mode[j][0] < 2))
-//@     invariant sess-l20: forall k int :: 0 <= k && k < len(sessions) ==> sessEntryOK(sessions[k], i)
-//@     invariant sess-l21: forall x robust.Id :: x in i.sessions ==> (exists k int :: 0 <= k && k < len(sessions) && snapId(sessions[k]) == x)
-//@     invariant sess-l22: forall a int, b int {sessions[a], sessions[b]} :: 0 <= a && a < b && b < len(sessions) ==> snapId(sessions[a]) != snapId(sessions[b])
+//@     invariant chanw-cur: channel != nil && ChanToLower(channel.name) in i.channels && i.channels[ChanToLower(channel.name)] == channel && seen(ChanToLower(channel.name), "range i.channels")
+//@     invariant chanw-nicks: nicks != nil && allocated(nicks) && (forall n lcNick :: seen(n) <==> n in nicks) && (forall n string :: n in nicks ==> n in channel.nicks && channel.nicks[n] != nil)
+//@     invariant chanw-nshape: (forall n string :: n in nicks ==> nicks[n] != nil && allocated(nicks[n]) && allocated(nicks[n].Mode) && (forall j int :: 0 <= j && j < len(nicks[n].Mode) ==> len(nicks[n].Mode[j]) > 0 && nicks[n].Mode[j][0] < 2))
+//@     invariant chanw-nsound: forall n string, j int :: n in nicks && 0 <= j && j < len(nicks[n].Mode) ==> channel.nicks[n][nicks[n].Mode[j][0]]
+//@     invariant chanw-ncomplete: forall n string, b int :: n in nicks && 0 <= b && b < 2 && channel.nicks[n][b] ==> (exists j int :: 0 <= j && j < len(nicks[n].Mode) && nicks[n].Mode[j][0] == b)
 //@   loop range channelNickModes
-//@     invariant setw: (forall k int :: 0 <= k && k < len(sessions) ==> sessions[k] != nil && allocated(sessions[k]) && sessions[k].Id != nil && allocated(sessions[k].Id) && setsSound(sessions[k], i.sessions[snapId(sessions[k])]))
-//@     invariant setwc: (forall k int :: 0 <= k && k < len(sessions) ==> sessions[k] != nil && allocated(sessions[k]) && sessions[k].Id != nil && allocated(sessions[k].Id) && setsComplete(sessions[k], i.sessions[snapId(sessions[k])]))
+//@     invariant sess-shape: forall k int :: 0 <= k && k < len(sessions) ==> sessShapeOK(sessions[k])
+//@     invariant sess-keys: forall k int :: 0 <= k && k < len(sessions) ==> snapId(sessions[k]) in i.sessions
+//@     invariant sess-repr: forall k int :: 0 <= k && k < len(sessions) ==> sessRepr(sessions[k], i.sessions[snapId(sessions[k])])
+//@     invariant sess-msound: forall k int :: 0 <= k && k < len(sessions) ==> modesSound(sessions[k], i.sessions[snapId(sessions[k])])
+//@     invariant sess-mcomplete: forall k int :: 0 <= k && k < len(sessions) ==> modesComplete(sessions[k], i.sessions[snapId(sessions[k])])
+//@     invariant setw: forall k int :: 0 <= k && k < len(sessions) ==> setsSound(sessions[k], i.sessions[snapId(sessions[k])])
+//@     invariant setwc: forall k int :: 0 <= k && k < len(sessions) ==> setsComplete(sessions[k], i.sessions[snapId(sessions[k])])
+//@     invariant sess-complete: forall x robust.Id :: x in i.sessions ==> (exists k int :: 0 <= k && k < len(sessions) && snapId(sessions[k]) == x)
+//@     invariant sess-distinct: forall a int, b int {sessions[a], sessions[b]} :: 0 <= a && a < b && b < len(sessions) ==> snapId(sessions[a]) != snapId(sessions[b])
 //@     invariant chanwc: channel != nil && seen(ChanToLower(channel.name), "range i.channels") && (forall k int :: 0 <= k && k < len(channels) ==> channels[k] != nil && allocated(channels[k])) && forall ch lcChan :: seen(ch, "range i.channels") && ch != ChanToLower(channel.name) ==> (exists k int :: 0 <= k && k < len(channels) && chanKey(channels[k]) == ch)
-//@     invariant chanw: channel != nil && ChanToLower(channel.name) in i.channels && i.channels[ChanToLower(channel.name)] == channel && seen(ChanToLower(channel.name), "range i.channels") && (forall k int :: 0 <= k && k < len(channels) ==> chanEntryOK(channels[k], i) && seen(chanKey(channels[k]), "range i.channels") && chanKey(channels[k]) != ChanToLower(channel.name))
-//@     invariant chanw-distinct: forall a int, b int {channels[a], channels[b]} :: 0 <= a && a < b && b < len(channels) ==> chanKey(channels[a]) != chanKey(channels[b])
-//@     invariant chanw-nicks: nickName in channel.nicks && channelNickModes == channel.nicks[nickName] && channelNickModes != nil && nicks != nil && allocated(nicks) && (forall n lcNick :: (seen(n, "range channel.nicks") && n != nickName) <==> n in nicks) && (forall n string :: n in nicks ==> n in channel.nicks && nicks[n] != nil && allocated(nicks[n]) && allocated(nicks[n].Mode) && memberRepr(nicks[n], channel.nicks[n]) && (forall j int :: 0 <= j && j < len(nicks[n].Mode) ==> len(nicks[n].Mode[j]) > 0 && nicks[n].Mode[j][0] < 2))
+//@     invariant chanw-cur: channel != nil && ChanToLower(channel.name) in i.channels && i.channels[ChanToLower(channel.name)] == channel && seen(ChanToLower(channel.name), "range i.channels")
+//@     invariant chanw-nicks: nickName in channel.nicks && channelNickModes == channel.nicks[nickName] && channelNickModes != nil && nicks != nil && allocated(nicks) && (forall n lcNick :: (seen(n, "range channel.nicks") && n != nickName) <==> n in nicks) && (forall n string :: n in nicks ==> n in channel.nicks && channel.nicks[n] != nil)
+//@     invariant chanw-nshape: (forall n string :: n in nicks ==> nicks[n] != nil && allocated(nicks[n]) && allocated(nicks[n].Mode) && (forall j int :: 0 <= j && j < len(nicks[n].Mode) ==> len(nicks[n].Mode[j]) > 0 && nicks[n].Mode[j][0] < 2))
+//@     invariant chanw-nsound: forall n string, j int :: n in nicks && 0 <= j && j < len(nicks[n].Mode) ==> channel.nicks[n][nicks[n].Mode[j][0]]
+//@     invariant chanw-ncomplete: forall n string, b int :: n in nicks && 0 <= b && b < 2 && channel.nicks[n][b] ==> (exists j int :: 0 <= j && j < len(nicks[n].Mode) && nicks[n].Mode[j][0] == b)
 //@     invariant chanw-member: 0 - 1 <= rangeindex && rangeindex < 2 && allocated(modes) && (forall j int :: 0 <= j && j < len(modes) ==> len(modes[j]) > 0 && 0 <= modes[j][0] && modes[j][0] <= rangeindex && channelNickModes[modes[j][0]])
 //@     invariant chanw-member2: forall b int :: 0 <= b && b <= rangeindex && channelNickModes[b] ==> (exists j int :: 0 <= j && j < len(modes) && modes[j][0] == b)
-//@     invariant sess-l23: forall k int :: 0 <= k && k < len(sessions) ==> sessEntryOK(sessions[k], i)
-//@     invariant sess-l24: forall x robust.Id :: x in i.sessions ==> (exists k int :: 0 <= k && k < len(sessions) && snapId(sessions[k]) == x)
-//@     invariant sess-l25: forall a int, b int {sessions[a], sessions[b]} :: 0 <= a && a < b && b < len(sessions) ==> snapId(sessions[a]) != snapId(sessions[b])
 //@   loop for mode < 'z' #1
-//@     invariant setw: (forall k int :: 0 <= k && k < len(sessions) ==> sessions[k] != nil && allocated(sessions[k]) && sessions[k].Id != nil && allocated(sessions[k].Id) && setsSound(sessions[k], i.sessions[snapId(sessions[k])]))
-//@     invariant setwc: (forall k int :: 0 <= k && k < len(sessions) ==> sessions[k] != nil && allocated(sessions[k]) && sessions[k].Id != nil && allocated(sessions[k].Id) && setsComplete(sessions[k], i.sessions[snapId(sessions[k])]))
+//@     invariant sess-shape: forall k int :: 0 <= k && k < len(sessions) ==> sessShapeOK(sessions[k])
+//@     invariant sess-keys: forall k int :: 0 <= k && k < len(sessions) ==> snapId(sessions[k]) in i.sessions
+//@     invariant sess-repr: forall k int :: 0 <= k && k < len(sessions) ==> sessRepr(sessions[k], i.sessions[snapId(sessions[k])])
+//@     invariant sess-msound: forall k int :: 0 <= k && k < len(sessions) ==> modesSound(sessions[k], i.sessions[snapId(sessions[k])])
+//@     invariant sess-mcomplete: forall k int :: 0 <= k && k < len(sessions) ==> modesComplete(sessions[k], i.sessions[snapId(sessions[k])])
+//@     invariant setw: forall k int :: 0 <= k && k < len(sessions) ==> setsSound(sessions[k], i.sessions[snapId(sessions[k])])
+//@     invariant setwc: forall k int :: 0 <= k && k < len(sessions) ==> setsComplete(sessions[k], i.sessions[snapId(sessions[k])])
+//@     invariant sess-complete: forall x robust.Id :: x in i.sessions ==> (exists k int :: 0 <= k && k < len(sessions) && snapId(sessions[k]) == x)
+//@     invariant sess-distinct: forall a int, b int {sessions[a], sessions[b]} :: 0 <= a && a < b && b < len(sessions) ==> snapId(sessions[a]) != snapId(sessions[b])
 //@     invariant chanwc: channel != nil && seen(ChanToLower(channel.name), "range i.channels") && (forall k int :: 0 <= k && k < len(channels) ==> channels[k] != nil && allocated(channels[k])) && forall ch lcChan :: seen(ch, "range i.channels") && ch != ChanToLower(channel.name) ==> (exists k int :: 0 <= k && k < len(channels) && chanKey(channels[k]) == ch)
-//@     invariant chanw: channel != nil && ChanToLower(channel.name) in i.channels && i.channels[ChanToLower(channel.name)] == channel && seen(ChanToLower(channel.name), "range i.channels") && (forall k int :: 0 <= k && k < len(channels) ==> chanEntryOK(channels[k], i) && seen(chanKey(channels[k]), "range i.channels") && chanKey(channels[k]) != ChanToLower(channel.name))
-//@     invariant chanw-distinct: forall a int, b int {channels[a], channels[b]} :: 0 <= a && a < b && b < len(channels) ==> chanKey(channels[a]) != chanKey(channels[b])
-//@     invariant chanw-nicks: nicks != nil && allocated(nicks) && (forall n lcNick :: n in channel.nicks <==> n in nicks) && (forall n string :: n in nicks ==> nicks[n] != nil && allocated(nicks[n]) && allocated(nicks[n].Mode) && memberRepr(nicks[n], channel.nicks[n]) && (forall j int :: 0 <= j && j < len(nicks[n].Mode) ==> len(nicks[n].Mode[j]) > 0 && nicks[n].Mode[j][0] < 2))
+//@     invariant chanw-cur: channel != nil && ChanToLower(channel.name) in i.channels && i.channels[ChanToLower(channel.name)] == channel && seen(ChanToLower(channel.name), "range i.channels")
+//@     invariant chanw-nicks: nicks != nil && allocated(nicks) && (forall n lcNick :: n in channel.nicks <==> n in nicks) && (forall n string :: n in nicks ==> channel.nicks[n] != nil)
+//@     invariant chanw-nshape: (forall n string :: n in nicks ==> nicks[n] != nil && allocated(nicks[n]) && allocated(nicks[n].Mode) && (forall j int :: 0 <= j && j < len(nicks[n].Mode) ==> len(nicks[n].Mode[j]) > 0 && nicks[n].Mode[j][0] < 2))
+//@     invariant chanw-nsound: forall n string, j int :: n in nicks && 0 <= j && j < len(nicks[n].Mode) ==> channel.nicks[n][nicks[n].Mode[j][0]]
+//@     invariant chanw-ncomplete: forall n string, b int :: n in nicks && 0 <= b && b < 2 && channel.nicks[n][b] ==> (exists j int :: 0 <= j && j < len(nicks[n].Mode) && nicks[n].Mode[j][0] == b)
 //@     invariant chanw-modes: 65 <= mode && mode <= 122 && allocated(modes) && (forall j int :: 0 <= j && j < len(modes) ==> len(modes[j]) > 0 && 65 <= modes[j][0] && modes[j][0] < mode && channel.modes[modes[j][0]])
 //@     invariant chanw-modes2: forall m int :: 65 <= m && m < mode && channel.modes[m] ==> (exists j int :: 0 <= j && j < len(modes) && modes[j][0] == m)
-//@     invariant sess-l26: forall k int :: 0 <= k && k < len(sessions) ==> sessEntryOK(sessions[k], i)
-//@     invariant sess-l27: forall x robust.Id :: x in i.sessions ==> (exists k int :: 0 <= k && k < len(sessions) && snapId(sessions[k]) == x)
-//@     invariant sess-l28: forall a int, b int {sessions[a], sessions[b]} :: 0 <= a && a < b && b < len(sessions) ==> snapId(sessions[a]) != snapId(sessions[b])
 //@   loop range channel.bans
-//@     invariant setw: (forall k int :: 0 <= k && k < len(sessions) ==> sessions[k] != nil && allocated(sessions[k]) && sessions[k].Id != nil && allocated(sessions[k].Id) && setsSound(sessions[k], i.sessions[snapId(sessions[k])]))
-//@     invariant setwc: (forall k int :: 0 <= k && k < len(sessions) ==> sessions[k] != nil && allocated(sessions[k]) && sessions[k].Id != nil && allocated(sessions[k].Id) && setsComplete(sessions[k], i.sessions[snapId(sessions[k])]))
+//@     invariant sess-shape: forall k int :: 0 <= k && k < len(sessions) ==> sessShapeOK(sessions[k])
+//@     invariant sess-keys: forall k int :: 0 <= k && k < len(sessions) ==> snapId(sessions[k]) in i.sessions
+//@     invariant sess-repr: forall k int :: 0 <= k && k < len(sessions) ==> sessRepr(sessions[k], i.sessions[snapId(sessions[k])])
+//@     invariant sess-msound: forall k int :: 0 <= k && k < len(sessions) ==> modesSound(sessions[k], i.sessions[snapId(sessions[k])])
+//@     invariant sess-mcomplete: forall k int :: 0 <= k && k < len(sessions) ==> modesComplete(sessions[k], i.sessions[snapId(sessions[k])])
+//@     invariant setw: forall k int :: 0 <= k && k < len(sessions) ==> setsSound(sessions[k], i.sessions[snapId(sessions[k])])
+//@     invariant setwc: forall k int :: 0 <= k && k < len(sessions) ==> setsComplete(sessions[k], i.sessions[snapId(sessions[k])])
+//@     invariant sess-complete: forall x robust.Id :: x in i.sessions ==> (exists k int :: 0 <= k && k < len(sessions) && snapId(sessions[k]) == x)
+//@     invariant sess-distinct: forall a int, b int {sessions[a], sessions[b]} :: 0 <= a && a < b && b < len(sessions) ==> snapId(sessions[a]) != snapId(sessions[b])
 //@     invariant chanwc: channel != nil && seen(ChanToLower(channel.name), "range i.channels") && (forall k int :: 0 <= k && k < len(channels) ==> channels[k] != nil && allocated(channels[k])) && forall ch lcChan :: seen(ch, "range i.channels") && ch != ChanToLower(channel.name) ==> (exists k int :: 0 <= k && k < len(channels) && chanKey(channels[k]) == ch)
-//@     invariant chanw: channel != nil && ChanToLower(channel.name) in i.channels && i.channels[ChanToLower(channel.name)] == channel && seen(ChanToLower(channel.name), "range i.channels") && (forall k int :: 0 <= k && k < len(channels) ==> chanEntryOK(channels[k], i) && seen(chanKey(channels[k]), "range i.channels") && chanKey(channels[k]) != ChanToLower(channel.name))
-//@     invariant chanw-distinct: forall a int, b int {channels[a], channels[b]} :: 0 <= a && a < b && b < len(channels) ==> chanKey(channels[a]) != chanKey(channels[b])
-//@     invariant chanw-nicks: nicks != nil && allocated(nicks) && (forall n lcNick :: n in channel.nicks <==> n in nicks) && (forall n string :: n in nicks ==> nicks[n] != nil && allocated(nicks[n]) && allocated(nicks[n].Mode) && memberRepr(nicks[n], channel.nicks[n]) && (forall j int :: 0 <= j && j < len(nicks[n].Mode) ==> len(nicks[n].Mode[j]) > 0 && nicks[n].Mode[j][0] < 2))
+//@     invariant chanw-cur: channel != nil && ChanToLower(channel.name) in i.channels && i.channels[ChanToLower(channel.name)] == channel && seen(ChanToLower(channel.name), "range i.channels")
+//@     invariant chanw-nicks: nicks != nil && allocated(nicks) && (forall n lcNick :: n in channel.nicks <==> n in nicks) && (forall n string :: n in nicks ==> channel.nicks[n] != nil)
+//@     invariant chanw-nshape: (forall n string :: n in nicks ==> nicks[n] != nil && allocated(nicks[n]) && allocated(nicks[n].Mode) && (forall j int :: 0 <= j && j < len(nicks[n].Mode) ==> len(nicks[n].Mode[j]) > 0 && nicks[n].Mode[j][0] < 2))
+//@     invariant chanw-nsound: forall n string, j int :: n in nicks && 0 <= j && j < len(nicks[n].Mode) ==> channel.nicks[n][nicks[n].Mode[j][0]]
+//@     invariant chanw-ncomplete: forall n string, b int :: n in nicks && 0 <= b && b < 2 && channel.nicks[n][b] ==> (exists j int :: 0 <= j && j < len(nicks[n].Mode) && nicks[n].Mode[j][0] == b)
 //@     invariant chanw-modes: allocated(modes) && (forall j int :: 0 <= j && j < len(modes) ==> len(modes[j]) > 0 && 65 <= modes[j][0] && modes[j][0] < 122 && channel.modes[modes[j][0]]) && (forall m int :: 65 <= m && m < 122 && channel.modes[m] ==> (exists j int :: 0 <= j && j < len(modes) && modes[j][0] == m))
 //@     invariant chanw-bans: 0 - 1 <= rangeindex && rangeindex < len(channel.bans) && len(bans) == len(channel.bans) && allocated(bans) && (forall k int :: 0 <= k && k <= rangeindex ==> bans[k] != nil && allocated(bans[k]) && bans[k].Pattern == channel.bans[k].pattern && bans[k].Regexp == channel.bans[k].re.String())
-//@     invariant sess-l29: forall k int :: 0 <= k && k < len(sessions) ==> sessEntryOK(sessions[k], i)
-//@     invariant sess-l30: forall x robust.Id :: x in i.sessions ==> (exists k int :: 0 <= k && k < len(sessions) && snapId(sessions[k]) == x)
-//@     invariant sess-l31: forall a int, b int {sessions[a], sessions[b]} :: 0 <= a && a < b && b < len(sessions) ==> snapId(sessions[a]) != snapId(sessions[b])
 //@   loop range i.svsholds
-//@     invariant setw: (forall k int :: 0 <= k && k < len(sessions) ==> sessions[k] != nil && allocated(sessions[k]) && sessions[k].Id != nil && allocated(sessions[k].Id) && setsSound(sessions[k], i.sessions[snapId(sessions[k])]))
-//@     invariant setwc: (forall k int :: 0 <= k && k < len(sessions) ==> sessions[k] != nil && allocated(sessions[k]) && sessions[k].Id != nil && allocated(sessions[k].Id) && setsComplete(sessions[k], i.sessions[snapId(sessions[k])]))
+//@     invariant sess-shape: forall k int :: 0 <= k && k < len(sessions) ==> sessShapeOK(sessions[k])
+//@     invariant sess-keys: forall k int :: 0 <= k && k < len(sessions) ==> snapId(sessions[k]) in i.sessions
+//@     invariant sess-repr: forall k int :: 0 <= k && k < len(sessions) ==> sessRepr(sessions[k], i.sessions[snapId(sessions[k])])
+//@     invariant sess-msound: forall k int :: 0 <= k && k < len(sessions) ==> modesSound(sessions[k], i.sessions[snapId(sessions[k])])
+//@     invariant sess-mcomplete: forall k int :: 0 <= k && k < len(sessions) ==> modesComplete(sessions[k], i.sessions[snapId(sessions[k])])
+//@     invariant setw: forall k int :: 0 <= k && k < len(sessions) ==> setsSound(sessions[k], i.sessions[snapId(sessions[k])])
+//@     invariant setwc: forall k int :: 0 <= k && k < len(sessions) ==> setsComplete(sessions[k], i.sessions[snapId(sessions[k])])
+//@     invariant sess-complete: forall x robust.Id :: x in i.sessions ==> (exists k int :: 0 <= k && k < len(sessions) && snapId(sessions[k]) == x)
+//@     invariant sess-distinct: forall a int, b int {sessions[a], sessions[b]} :: 0 <= a && a < b && b < len(sessions) ==> snapId(sessions[a]) != snapId(sessions[b])
 //@     invariant chanwc: (forall k int :: 0 <= k && k < len(channels) ==> channels[k] != nil && allocated(channels[k])) && forall ch lcChan :: ch in i.channels ==> (exists k int :: 0 <= k && k < len(channels) && chanKey(channels[k]) == ch)
-//@     invariant chanw: forall k int :: 0 <= k && k < len(channels) ==> chanEntryOK(channels[k], i)
+//@     invariant chanw-o-keys: forall k int :: 0 <= k && k < len(channels) ==> channels[k] != nil && allocated(channels[k]) && chanKey(channels[k]) in i.channels
+//@     invariant chanw-o-shape: forall k int :: 0 <= k && k < len(channels) ==> chanShapeOK(channels[k])
+//@     invariant chanw-o-scalars: forall k int :: 0 <= k && k < len(channels) ==> chanReprS(channels[k], i.channels[chanKey(channels[k])])
+//@     invariant chanw-o-msound: forall k int :: 0 <= k && k < len(channels) ==> chanModesSound(channels[k], i.channels[chanKey(channels[k])])
+//@     invariant chanw-o-mcomplete: forall k int :: 0 <= k && k < len(channels) ==> chanModesComplete(channels[k], i.channels[chanKey(channels[k])])
+//@     invariant chanw-o-bans: forall k int :: 0 <= k && k < len(channels) ==> chanReprB(channels[k], i.channels[chanKey(channels[k])])
+//@     invariant chanw-o-members: forall k int :: 0 <= k && k < len(channels) ==> chanNicksW(channels[k], i.channels[chanKey(channels[k])])
 //@     invariant chanw-distinct: forall a int, b int {channels[a], channels[b]} :: 0 <= a && a < b && b < len(channels) ==> chanKey(channels[a]) != chanKey(channels[b])
 //@     invariant holds: svsholds != nil && allocated(svsholds) && (forall n lcNick :: seen(n) <==> n in svsholds) && (forall n string :: n in svsholds ==> svsholds[n] != nil && allocated(svsholds[n]) && allocated(svsholds[n].Added) && n in i.svsholds && holdRepr(svsholds[n], i.svsholds[n]) && parseok(svsholds[n].Duration))
-//@     invariant sess-l32: forall k int :: 0 <= k && k < len(sessions) ==> sessEntryOK(sessions[k], i)
-//@     invariant sess-l33: forall x robust.Id :: x in i.sessions ==> (exists k int :: 0 <= k && k < len(sessions) && snapId(sessions[k]) == x)
-//@     invariant sess-l34: forall a int, b int {sessions[a], sessions[b]} :: 0 <= a && a < b && b < len(sessions) ==> snapId(sessions[a]) != snapId(sessions[b])
 //@   loop range i.Config.IRC.Operators
-//@     invariant setw: (forall k int :: 0 <= k && k < len(sessions) ==> sessions[k] != nil && allocated(sessions[k]) && sessions[k].Id != nil && allocated(sessions[k].Id) && setsSound(sessions[k], i.sessions[snapId(sessions[k])]))
-//@     invariant setwc: (forall k int :: 0 <= k && k < len(sessions) ==> sessions[k] != nil && allocated(sessions[k]) && sessions[k].Id != nil && allocated(sessions[k].Id) && setsComplete(sessions[k], i.sessions[snapId(sessions[k])]))
+//@     invariant sess-shape: forall k int :: 0 <= k && k < len(sessions) ==> sessShapeOK(sessions[k])
+//@     invariant sess-keys: forall k int :: 0 <= k && k < len(sessions) ==> snapId(sessions[k]) in i.sessions
+//@     invariant sess-repr: forall k int :: 0 <= k && k < len(sessions) ==> sessRepr(sessions[k], i.sessions[snapId(sessions[k])])
+//@     invariant sess-msound: forall k int :: 0 <= k && k < len(sessions) ==> modesSound(sessions[k], i.sessions[snapId(sessions[k])])
+//@     invariant sess-mcomplete: forall k int :: 0 <= k && k < len(sessions) ==> modesComplete(sessions[k], i.sessions[snapId(sessions[k])])
+//@     invariant setw: forall k int :: 0 <= k && k < len(sessions) ==> setsSound(sessions[k], i.sessions[snapId(sessions[k])])
+//@     invariant setwc: forall k int :: 0 <= k && k < len(sessions) ==> setsComplete(sessions[k], i.sessions[snapId(sessions[k])])
+//@     invariant sess-complete: forall x robust.Id :: x in i.sessions ==> (exists k int :: 0 <= k && k < len(sessions) && snapId(sessions[k]) == x)
+//@     invariant sess-distinct: forall a int, b int {sessions[a], sessions[b]} :: 0 <= a && a < b && b < len(sessions) ==> snapId(sessions[a]) != snapId(sessions[b])
 //@     invariant chanwc: (forall k int :: 0 <= k && k < len(channels) ==> channels[k] != nil && allocated(channels[k])) && forall ch lcChan :: ch in i.channels ==> (exists k int :: 0 <= k && k < len(channels) && chanKey(channels[k]) == ch)
-//@     invariant chanw: forall k int :: 0 <= k && k < len(channels) ==> chanEntryOK(channels[k], i)
+//@     invariant chanw-o-keys: forall k int :: 0 <= k && k < len(channels) ==> channels[k] != nil && allocated(channels[k]) && chanKey(channels[k]) in i.channels
+//@     invariant chanw-o-shape: forall k int :: 0 <= k && k < len(channels) ==> chanShapeOK(channels[k])
+//@     invariant chanw-o-scalars: forall k int :: 0 <= k && k < len(channels) ==> chanReprS(channels[k], i.channels[chanKey(channels[k])])
+//@     invariant chanw-o-msound: forall k int :: 0 <= k && k < len(channels) ==> chanModesSound(channels[k], i.channels[chanKey(channels[k])])
+//@     invariant chanw-o-mcomplete: forall k int :: 0 <= k && k < len(channels) ==> chanModesComplete(channels[k], i.channels[chanKey(channels[k])])
+//@     invariant chanw-o-bans: forall k int :: 0 <= k && k < len(channels) ==> chanReprB(channels[k], i.channels[chanKey(channels[k])])
+//@     invariant chanw-o-members: forall k int :: 0 <= k && k < len(channels) ==> chanNicksW(channels[k], i.channels[chanKey(channels[k])])
 //@     invariant chanw-distinct: forall a int, b int {channels[a], channels[b]} :: 0 <= a && a < b && b < len(channels) ==> chanKey(channels[a]) != chanKey(channels[b])
-//@     invariant sess-l35: forall k int :: 0 <= k && k < len(sessions) ==> sessEntryOK(sessions[k], i)
-//@     invariant sess-l36: forall x robust.Id :: x in i.sessions ==> (exists k int :: 0 <= k && k < len(sessions) && snapId(sessions[k]) == x)
-//@     invariant sess-l37: forall a int, b int {sessions[a], sessions[b]} :: 0 <= a && a < b && b < len(sessions) ==> snapId(sessions[a]) != snapId(sessions[b])
 //@   loop range i.Config.IRC.Services
-//@     invariant setw: (forall k int :: 0 <= k && k < len(sessions) ==> sessions[k] != nil && allocated(sessions[k]) && sessions[k].Id != nil && allocated(sessions[k].Id) && setsSound(sessions[k], i.sessions[snapId(sessions[k])]))
-//@     invariant setwc: (forall k int :: 0 <= k && k < len(sessions) ==> sessions[k] != nil && allocated(sessions[k]) && sessions[k].Id != nil && allocated(sessions[k].Id) && setsComplete(sessions[k], i.sessions[snapId(sessions[k])]))
+//@     invariant sess-shape: forall k int :: 0 <= k && k < len(sessions) ==> sessShapeOK(sessions[k])
+//@     invariant sess-keys: forall k int :: 0 <= k && k < len(sessions) ==> snapId(sessions[k]) in i.sessions
+//@     invariant sess-repr: forall k int :: 0 <= k && k < len(sessions) ==> sessRepr(sessions[k], i.sessions[snapId(sessions[k])])
+//@     invariant sess-msound: forall k int :: 0 <= k && k < len(sessions) ==> modesSound(sessions[k], i.sessions[snapId(sessions[k])])
+//@     invariant sess-mcomplete: forall k int :: 0 <= k && k < len(sessions) ==> modesComplete(sessions[k], i.sessions[snapId(sessions[k])])
+//@     invariant setw: forall k int :: 0 <= k && k < len(sessions) ==> setsSound(sessions[k], i.sessions[snapId(sessions[k])])
+//@     invariant setwc: forall k int :: 0 <= k && k < len(sessions) ==> setsComplete(sessions[k], i.sessions[snapId(sessions[k])])
+//@     invariant sess-complete: forall x robust.Id :: x in i.sessions ==> (exists k int :: 0 <= k && k < len(sessions) && snapId(sessions[k]) == x)
+//@     invariant sess-distinct: forall a int, b int {sessions[a], sessions[b]} :: 0 <= a && a < b && b < len(sessions) ==> snapId(sessions[a]) != snapId(sessions[b])
 //@     invariant chanwc: (forall k int :: 0 <= k && k < len(channels) ==> channels[k] != nil && allocated(channels[k])) && forall ch lcChan :: ch in i.channels ==> (exists k int :: 0 <= k && k < len(channels) && chanKey(channels[k]) == ch)
-//@     invariant chanw: forall k int :: 0 <= k && k < len(channels) ==> chanEntryOK(channels[k], i)
+//@     invariant chanw-o-keys: forall k int :: 0 <= k && k < len(channels) ==> channels[k] != nil && allocated(channels[k]) && chanKey(channels[k]) in i.channels
+//@     invariant chanw-o-shape: forall k int :: 0 <= k && k < len(channels) ==> chanShapeOK(channels[k])
+//@     invariant chanw-o-scalars: forall k int :: 0 <= k && k < len(channels) ==> chanReprS(channels[k], i.channels[chanKey(channels[k])])
+//@     invariant chanw-o-msound: forall k int :: 0 <= k && k < len(channels) ==> chanModesSound(channels[k], i.channels[chanKey(channels[k])])
+//@     invariant chanw-o-mcomplete: forall k int :: 0 <= k && k < len(channels) ==> chanModesComplete(channels[k], i.channels[chanKey(channels[k])])
+//@     invariant chanw-o-bans: forall k int :: 0 <= k && k < len(channels) ==> chanReprB(channels[k], i.channels[chanKey(channels[k])])
+//@     invariant chanw-o-members: forall k int :: 0 <= k && k < len(channels) ==> chanNicksW(channels[k], i.channels[chanKey(channels[k])])
 //@     invariant chanw-distinct: forall a int, b int {channels[a], channels[b]} :: 0 <= a && a < b && b < len(channels) ==> chanKey(channels[a]) != chanKey(channels[b])
-//@     invariant sess-l38: forall k int :: 0 <= k && k < len(sessions) ==> sessEntryOK(sessions[k], i)
-//@     invariant sess-l39: forall x robust.Id :: x in i.sessions ==> (exists k int :: 0 <= k && k < len(sessions) && snapId(sessions[k]) == x)
-//@     invariant sess-l40: forall a int, b int {sessions[a], sessions[b]} :: 0 <= a && a < b && b < len(sessions) ==> snapId(sessions[a]) != snapId(sessions[b])
 //@   loop range i.Config.IRC.Operators
 //@     invariant holds: svsholds != nil && allocated(svsholds) && (forall n lcNick :: n in i.svsholds <==> n in svsholds) && (forall n string :: n in svsholds ==> svsholds[n] != nil && allocated(svsholds[n]) && allocated(svsholds[n].Added) && holdRepr(svsholds[n], i.svsholds[n]) && parseok(svsholds[n].Duration))
 //@     invariant config-l41: 0 - 1 <= rangeindex && rangeindex < len(i.Config.IRC.Operators) && len(operators) == rangeindex + 1 && (forall k int :: 0 <= k && k < len(operators) ==> operators[k] != nil && allocated(operators[k]) && operators[k].Name == i.Config.IRC.Operators[k].Name && operators[k].Password == i.Config.IRC.Operators[k].Password)
@@ -1098,17 +1226,30 @@ package ircserver
 //@     invariant holds: svsholds != nil && allocated(svsholds) && (forall n lcNick :: n in i.svsholds <==> n in svsholds) && (forall n string :: n in svsholds ==> svsholds[n] != nil && allocated(svsholds[n]) && allocated(svsholds[n].Added) && holdRepr(svsholds[n], i.svsholds[n]) && parseok(svsholds[n].Duration))
 //@     invariant config-l42: len(operators) == len(i.Config.IRC.Operators) && (forall k int :: 0 <= k && k < len(operators) ==> operators[k] != nil && allocated(operators[k]) && operators[k].Name == i.Config.IRC.Operators[k].Name && operators[k].Password == i.Config.IRC.Operators[k].Password)
 //@     invariant config-l43: 0 - 1 <= rangeindex && rangeindex < len(i.Config.IRC.Services) && len(services) == rangeindex + 1 && (forall k int :: 0 <= k && k < len(services) ==> services[k] != nil && allocated(services[k]) && services[k].Password == i.Config.IRC.Services[k].Password)
+//@   assert@call proto.Marshal#0 : sess-f-shape: forall k int :: 0 <= k && k < len(sessions) ==> sessShapeOK(sessions[k])
+//@   assert@call proto.Marshal#0 : sess-f-keys: forall k int :: 0 <= k && k < len(sessions) ==> snapId(sessions[k]) in i.sessions
+//@   assert@call proto.Marshal#0 : sess-f-repr: forall k int :: 0 <= k && k < len(sessions) ==> sessRepr(sessions[k], i.sessions[snapId(sessions[k])])
+//@   assert@call proto.Marshal#0 : sess-f-msound: forall k int :: 0 <= k && k < len(sessions) ==> modesSound(sessions[k], i.sessions[snapId(sessions[k])])
+//@   assert@call proto.Marshal#0 : sess-f-mcomplete: forall k int :: 0 <= k && k < len(sessions) ==> modesComplete(sessions[k], i.sessions[snapId(sessions[k])])
+//@   assert@call proto.Marshal#0 : setw-f: forall k int :: 0 <= k && k < len(sessions) ==> setsSound(sessions[k], i.sessions[snapId(sessions[k])])
+//@   assert@call proto.Marshal#0 : setwc-f: forall k int :: 0 <= k && k < len(sessions) ==> setsComplete(sessions[k], i.sessions[snapId(sessions[k])])
+//@   assert@call proto.Marshal#0 : sess-f-complete: forall x robust.Id :: x in i.sessions ==> (exists k int :: 0 <= k && k < len(sessions) && snapId(sessions[k]) == x)
+//@   assert@call proto.Marshal#0 : sess-f-distinct: forall a int, b int {sessions[a], sessions[b]} :: 0 <= a && a < b && b < len(sessions) ==> snapId(sessions[a]) != snapId(sessions[b])
 //@   assert@call proto.Marshal#0 : sess-same: sameslice(snapshot.Sessions, sessions)
-//@   assert@call proto.Marshal#0 : sess-sessions-complete: forall x robust.Id :: x in i.sessions ==> (exists k int :: 0 <= k && k < len(sessions) && snapId(sessions[k]) == x)
-//@   assert@call proto.Marshal#0 : sess-sessions-shape: forall k int :: 0 <= k && k < len(sessions) ==> sessions[k] != nil && allocated(sessions[k]) && sessions[k].Id != nil && sessions[k].IrcPrefix != nil && modesOK(sessions[k])
-//@   assert@call proto.Marshal#0 : sess-sessions-distinct: forall a int, b int {sessions[a], sessions[b]} :: 0 <= a && a < b && b < len(sessions) ==> snapId(sessions[a]) != snapId(sessions[b])
-//@   assert@call proto.Marshal#0 : sess-sessions: wfSnapSessions(addrof(snapshot))
+//@   assert@call proto.Marshal#0 : sess-final: (forall k int :: 0 <= k && k < len(sessions) ==> sessEntryOK(sessions[k], i)) && wfSnapSessions(addrof(snapshot))
 //@   assert@call proto.Marshal#0 : sessnicks: wfSnapNicks(addrof(snapshot))
-//@   assert@call proto.Marshal#0 : sess-sessions-repr: forall k int :: 0 <= k && k < len(sessions) ==> sessEntryOK(sessions[k], i)
 //@   assert@call proto.Marshal#0 : chanwc: forall ch lcChan :: ch in i.channels ==> (exists k int :: 0 <= k && k < len(channels) && chanKey(channels[k]) == ch)
-//@   assert@call proto.Marshal#0 : chanw: sameslice(snapshot.Channels, channels) && (forall k int :: 0 <= k && k < len(channels) ==> chanEntryOK(channels[k], i)) && wfSnapChannels(addrof(snapshot))
-//@   assert@call proto.Marshal#0 : setw: (forall k int :: 0 <= k && k < len(sessions) ==> sessions[k] != nil && allocated(sessions[k]) && sessions[k].Id != nil && allocated(sessions[k].Id) && setsSound(sessions[k], i.sessions[snapId(sessions[k])]))
-//@   assert@call proto.Marshal#0 : setwc: (forall k int :: 0 <= k && k < len(sessions) ==> sessions[k] != nil && allocated(sessions[k]) && sessions[k].Id != nil && allocated(sessions[k].Id) && setsComplete(sessions[k], i.sessions[snapId(sessions[k])]))
+//@   assert@call proto.Marshal#0 : chanw-f-keys: forall k int :: 0 <= k && k < len(channels) ==> channels[k] != nil && allocated(channels[k]) && chanKey(channels[k]) in i.channels
+//@   assert@call proto.Marshal#0 : chanw-f-shape: forall k int :: 0 <= k && k < len(channels) ==> chanShapeOK(channels[k])
+//@   assert@call proto.Marshal#0 : chanw-f-scalars: forall k int :: 0 <= k && k < len(channels) ==> chanReprS(channels[k], i.channels[chanKey(channels[k])])
+//@   assert@call proto.Marshal#0 : chanw-f-msound: forall k int :: 0 <= k && k < len(channels) ==> chanModesSound(channels[k], i.channels[chanKey(channels[k])])
+//@   assert@call proto.Marshal#0 : chanw-f-mcomplete: forall k int :: 0 <= k && k < len(channels) ==> chanModesComplete(channels[k], i.channels[chanKey(channels[k])])
+//@   assert@call proto.Marshal#0 : chanw-f-bans: forall k int :: 0 <= k && k < len(channels) ==> chanReprB(channels[k], i.channels[chanKey(channels[k])])
+//@   assert@call proto.Marshal#0 : chanw-f-members: forall k int :: 0 <= k && k < len(channels) ==> chanNicksW(channels[k], i.channels[chanKey(channels[k])])
+//@   assert@call proto.Marshal#0 : chanw-f-distinct: forall a int, b int {channels[a], channels[b]} :: 0 <= a && a < b && b < len(channels) ==> chanKey(channels[a]) != chanKey(channels[b])
+//@   assert@call proto.Marshal#0 : chanw-final: sameslice(snapshot.Channels, channels) && (forall k int :: 0 <= k && k < len(channels) ==> chanEntryOK(channels[k], i)) && wfSnapChannels(addrof(snapshot))
+//@   assert@call proto.Marshal#0 : setw-final: (forall k int :: 0 <= k && k < len(sessions) ==> sessions[k] != nil && allocated(sessions[k]) && sessions[k].Id != nil && allocated(sessions[k].Id) && setsSound(sessions[k], i.sessions[snapId(sessions[k])]))
+//@   assert@call proto.Marshal#0 : setwc-final: (forall k int :: 0 <= k && k < len(sessions) ==> sessions[k] != nil && allocated(sessions[k]) && sessions[k].Id != nil && allocated(sessions[k].Id) && setsComplete(sessions[k], i.sessions[snapId(sessions[k])]))
 //@   assert@call proto.Marshal#0 : holds: snapshot.Svsholds == svsholds && holdsRepr(addrof(snapshot), i) && wfSnapHolds(addrof(snapshot))
 //@   assert@call proto.Marshal#0 : config: snapshot.Config == config && cfgRepr(config, addrof(i.Config)) && cfgTextOK(config)
 //@   assert@call proto.Marshal#0 : config-top: snapshot.LastProcessed != nil && snapshot.LastProcessed.Id == i.lastProcessed.Id && snapshot.LastProcessed.Reply == i.lastProcessed.Reply && snapshot.LastIncludedIndex == lastIncludedIndex
@@ -1274,3 +1415,8 @@ package ircserver
 //@   opt params = p *pb.Snapshot_Session, s *Session
 //@   requires setsSound(p, s) && setsComplete(p, s) && s.Channels != nil && s.invitedTo != nil
 //@   ensures chansRepr(p, s)
+// the writer's form of the member relation implies the reader's, given that member keys are lowered nicknames
+//@ func lemma_channicks_writer
+//@   opt params = p *pb.Snapshot_Channel, c *channel
+//@   requires chanNicksW(p, c) && (forall n lcNick :: n in c.nicks ==> NickToLower(n) == n)
+//@   ensures chanNicksRepr(p, c)
